@@ -237,6 +237,7 @@ fn group_patterns<const N: usize>(table: [u8; 4]) {
         group_concrete::<N>(el);
         p += 1;
     }
+    wit!(p == (1 << (N - 1)), "witness: every pattern was run");
 }
 
 macro_rules! pattern_harness {
